@@ -7,10 +7,10 @@ VERIF = os.path.dirname(os.path.dirname(os.path.abspath(__file__)))
 
 CLAIMS = {
     "C01": ("G", "guard-tree evaluation on representatives (MIR value numbering + trusted atom table)",
-            "4", "every checked/wrapping/saturating/strict/unsuffixed/mixed-sign/carry-in form of add, sub, neg, abs, abs_diff, unsigned_abs, midpoint routes to the outcome the Rust reference prescribes on sign/boundary representatives (digit counts 2 and 3, both build modes), given the contract of the digit-loop terminals",
+            "4", "every checked/wrapping/saturating/strict/unsuffixed/mixed-sign/carry-in form of add, sub, neg, abs, abs_diff, unsigned_abs, midpoint routes to the outcome the Rust reference prescribes on sign/boundary representatives (digit counts 1, 2 and 3, both build modes), given the contract of the digit-loop terminals; the num-traits entry points (Checked*/Wrapping*/Saturating*/Overflowing* Add/Sub, Saturating, CheckedNeg/WrappingNeg) on a boundary grid",
             "NOT decided: exactness / flag of overflowing_add, overflowing_sub, overflowing_neg themselves (carry chains). Trusted: rustc MIR, driver, atom-meaning table."),
     "C02": ("G", "guard-tree evaluation on representatives",
-            "4", "signed multiplication's re-signing / MIN cases / saturation side and all projection forms, given the contract of the schoolbook terminal long_mul",
+            "4", "signed multiplication's re-signing / MIN cases / saturation side and all projection forms (incl. the num-traits CheckedMul/WrappingMul/SaturatingMul entry points and one-digit types), given the contract of the schoolbook terminal long_mul",
             "NOT decided: the schoolbook product and its overflow detection (long_mul), widening_mul digits."),
     "C03": ("G+P+F", "guard-tree evaluation on representatives; panic-class reachability; normal-form equality",
             "4", "zero-divisor routing, the MIN/-1 and MIN/1 tables, sign / euclid / floor / ceil / next_multiple_of adjustment logic of every division form on representatives of each sign combination, given the contract of the unsigned quotient-remainder primitive; panic classes reachable from operators; unsigned euclid/floor forms equal the truncating ones",
@@ -25,23 +25,23 @@ CLAIMS = {
             "4", "signed bit operations equal the unsigned operation on the same pattern; next_power_of_two family; bit / set_bit / power_of_two digit addressing (index >> shift, mask) on index representatives around digit boundaries",
             "NOT decided: unsigned counting / reversal loops."),
     "C07": ("G+F+S", "guard-tree evaluation over the three orderings; normal-form equality; derive/repr structure query",
-            "4", "lt/le/gt/ge/eq/ne/min/max/clamp are the documented functions of cmp; signum and the Signed trait route on the sign atoms; PartialOrd/Ord forward to the inherent methods; PartialEq/Eq/Hash are derived over the single field of a repr(transparent) struct",
+            "4", "lt/le/gt/ge/eq/ne/min/max/clamp are the documented functions of cmp; signum and the Signed trait route on the sign atoms; PartialOrd/Ord forward to the inherent methods and order pairs that differ only above bit 128 / in the top digit correctly (cmp, partial_cmp, max, min); PartialEq/Eq/Hash are derived over the single field of a repr(transparent) struct",
             "NOT decided: that cmp orders by value, digit loops of eq / is_negative."),
     "C08": ("G", "guard-tree evaluation on representatives",
-            "4", "signed pow forms re-sign and range-check the unsigned power as documented (a^0 = 1, MIN results, odd/even exponents, saturation side); all projection forms; ilog2 = bits-1; checked_ilog* None exactly on the invalid side",
+            "4", "signed pow forms re-sign and range-check the unsigned power as documented (a^0 = 1, MIN results, odd/even exponents, saturation side); all projection forms; ilog2 = bits-1; checked_ilog* None exactly on the invalid side; bases whose power lies strictly between 2^(BITS-1) and 2^BITS; exponents up to u32::MAX; ilog / checked_ilog values on (self, base) pairs decided before the iteration",
             "NOT decided: unsigned square-and-multiply loops, the recursive ilog scheme."),
-    "C17": ("F", "interprocedural value numbering: normal form of each trait method vs the spec term (3696 obligations)",
-            "4", "every operator / assign / reference form (incl. shifts by 12 primitive and 2 bnum amount types), Sum/Product folds, Default, FromStr, PartialOrd/Ord, Div/Rem<digit> has the same normal form as the inherent method on the same operands, in both build modes",
+    "C17": ("F+G", "interprocedural value numbering: normal form of each trait method vs the spec term; guard-tree evaluation of shift operators on typed amounts and of Sum/Product through a finite iterator model",
+            "4", "every operator / assign / reference form (incl. shifts by 12 primitive and 2 bnum amount types), Sum/Product folds, Default, FromStr, PartialOrd/Ord, Div/Rem<digit> has the same normal form as the inherent method on the same operands, in both build modes; `<<`/`>>` with each of the 11 other primitive amount types shift by exactly the in-range amount (panic on out-of-range amounts with debug assertions); Sum/Product of 0..3 items are the left fold from ZERO/ONE with the operator's own overflow behaviour",
             "NOT decided: Add<digit> carry loop; values of the inherent twins."),
-    "C18": ("F+G+P", "normal-form equality of forwarders; guard evaluation of Integer/PrimInt/Signed/lcm/nth_root early exits; audited panic reachability for Roots",
-            "4", "num-traits forwarders equal the inherent methods; Integer::div_floor/mod_floor/div_rem/is_multiple_of follow the num-integer contract on every sign combination; lcm does not overflow when the lcm fits; Roots cannot raise an arithmetic-overflow panic",
+    "C18": ("F+G+P", "normal-form equality of forwarders; guard evaluation of every operator-trait entry point against the primitive semantics, Integer/PrimInt/Signed/lcm/nth_root early exits; audited panic reachability for Roots",
+            "4", "num-traits forwarders equal the inherent methods and, evaluated on a boundary grid, produce the primitive-integer outcome (a hand-written impl is still decided); nth_root of degree 0 panics, of degree 1 is the identity (MIN included), even roots of negatives panic; Integer::div_floor/mod_floor/div_rem/is_multiple_of follow the num-integer contract on every sign combination; lcm does not overflow when the lcm fits; Roots cannot raise an arithmetic-overflow panic",
             "NOT decided: gcd loop, Newton iteration values."),
     "C09": ("G+F+P", "guard-tree evaluation; normal-form equality; audited panic reachability",
             "4", "cast_signed/cast_unsigned/to_bits/from_bits reinterpret the pattern; signed primitive<->bnum casts are the unsigned import/export on the same pattern; CastFrom<bool|char>; AsPrimitive == CastFrom; no CastFrom impl can reach an API-contract panic",
             "NOT decided: the digit loops of the unsigned casts (extension, truncation, split/pack across digit sizes); bnum->bnum casts. P- is an audited may-analysis."),
-    "C10": ("G+F+P", "guard-tree evaluation (incl. all 256 bytes through the byte-to-digit helper); panic reachability",
-            "4", "radix-range guards precede any read; empty input outcomes; from_radix_be/le pair with the matching endianness terminal (never the opposite one); complete byte-to-digit table; FromStr == from_str_radix(.., 10); only the radix panic is reachable",
-            "NOT decided: grammar / value / error kinds inside from_buf_radix_internal, including the leading-zero rejection the statement mentions."),
+    "C10": ("G+F+P+T", "guard-tree evaluation (incl. all 256 bytes through the byte-to-digit helper); information-flow (taint + control-dependence) analysis of the parser bodies; panic reachability",
+            "4", "radix-range guards precede any read; empty input outcomes; from_radix_be/le pair with the matching endianness terminal (never the opposite one); complete byte-to-digit table; FromStr == from_str_radix(.., 10) (also at digit count 1); sign / boundary / invalid-character texts through from_str_radix, parse_bytes, FromStr and num_traits::Num::from_str_radix around the parser core; rule T: no branch of the parsers rejects (overflow kind / None) without depending on the bytes of the input, so zero-padded numerals of any length are not refused by length; only the radix panic is reachable",
+            "NOT decided: grammar / value / error kinds inside the loops of from_buf_radix_internal (trusted by contract for radix <= 255). The leading-zero defect the statement mentions was found by rule T and fixed (a116b27)."),
     "C11": ("G+F+P", "guard-tree evaluation; normal-form equality; panic reachability",
             "4", "radix guards and the zero case of to_radix_be/le, radix-class dispatch, signed == unsigned on the bit pattern, the parse table accepts every digit character the printer emits, only radix panics reachable",
             "NOT decided: the numerals produced by the conversion loops."),
@@ -49,19 +49,19 @@ CLAIMS = {
             "4", "THIN CLAIM - only these clauses: Debug == Display; signed Binary/Octal/LowerHex/UpperHex format the two's-complement bit pattern through the unsigned impl of the same trait; signed Display/LowerExp/UpperExp pass (value >= 0, \"\", text of the magnitude via the same trait) to pad_integral; unsigned Display/Octal pass the radix-10/radix-8 numeral and the right prefix",
             "NOT decided: the produced text (per-digit assembly, interior zero padding, exponent form, width/fill/alignment/flag handling) - i.e. almost all of the statement. These clauses are necessary conditions only."),
     "C13": ("F+G+P", "normal-form equality; guard-tree evaluation; audited panic reachability",
-            "4", "digit-array accessors are the identity on the representation; from_digit; sign guards of the mixed-sign TryFrom impls around the unsigned conversions; no conversion impl can reach an API-contract panic",
-            "NOT decided: representability loops; BTryFrom between different widths (two independent digit counts)."),
+            "4", "digit-array accessors are the identity on the representation; from_digit; sign guards of the mixed-sign TryFrom impls around the unsigned conversions; BTryFrom between all eight families at (source, target) digit-count pairs incl. target widths that are not a whole number of source digits: Ok exactly when representable; no conversion impl can reach an API-contract panic",
+            "NOT decided: the bnum -> primitive digit-gathering loops and the checks after them."),
     "C14": ("G", "interprocedural guard-tree evaluation with IEEE-754 bit patterns as values",
             "4", "float->integer casts of representative f32/f64 values (NaN, infinities, zeros, |x|<1, fractional, around both bounds, negative) equal Rust's `as`; integer->float casts of representative integers (exact, ties both ways, carry into the exponent, infinity threshold) round to nearest-even",
             "NOT decided: other inputs; primitive digit import/export loops (trusted by contract)."),
-    "C15": ("G+F", "guard-tree evaluation; normal-form equality (nightly configuration in the thorough tier)",
-            "4", "from_le/to_le identity and from_be/to_be byte reversal on this little-endian target, signed forms on the pattern; empty slice -> zero; (thorough) ne == le and signed *_bytes delegate to unsigned",
+    "C15": ("G+F+T", "guard-tree evaluation; normal-form equality (incl. the nightly configuration); information-flow analysis of from_*_slice",
+            "4", "from_le/to_le identity and from_be/to_be byte reversal on this little-endian target, signed forms on the pattern; empty slice -> zero; ne == le and signed *_bytes delegate to unsigned (nightly configuration, both tiers); rule T: from_be_slice / from_le_slice never decide None from the slice length alone",
             "NOT decided: from_*_slice decoding loops and their accept/reject conditions; big-endian targets."),
     "C16": ("W+G", "type-level witness crate (rustc const evaluation + trait resolution) and equal-width guard rows",
             "2.6", "BITS/BYTES/MIN/MAX/ZERO/ONE..TEN/NEG_ONE..NEG_TEN for 4 digit types x 10 digit counts x {U,I}, the 14 aliases, the cast and operator impl matrices (2256 obligations decided by rustc, exhaustive on the grid); identical wrapper routing across digit types at 64 and 192 bits",
             "NOT decided: cross-digit agreement of loop terminals; commuting with extension to a wider type; parse/print."),
     "C19": ("F+G+P", "normal-form equality; guard-tree evaluation incl. float values; audited panic reachability",
-            "4", "AsPrimitive == As cast; to_f32/to_f64 == Some(cast); sign guards of signed to_uN and unsigned from_i64/i128; from_f32/from_f64 None/Some routing and truncation on float representatives incl. values whose top bit is the target's top bit; no API-contract panic",
+            "4", "AsPrimitive == As cast; to_f32/to_f64 == Some(nearest float, ties to even) on rounding representatives (a double rounding through f64 is reported); sign guards of signed to_uN and unsigned from_i64/i128; from_f32/from_f64 None/Some routing and truncation on float representatives incl. values whose top bit is the target's top bit; no API-contract panic",
             "NOT decided: unsigned import/export loops, signed to_iN/from_iN loops."),
     "C20": ("G+S", "guard-tree evaluation of the uniform sampler on bounds x RNG-word representatives; structure query on Standard",
             "4", "range / rejection-count construction, in-range-or-reject routing of sample / sample_single(_inclusive) incl. signed ranges spanning zero and wider than half the type, new == new_inclusive(high-1), whole-array fill in Standard",
@@ -99,7 +99,7 @@ def main():
         na.append({"property_id": p, "reason": NOT_APPLICABLE.get(p, "check not built yet (work in progress); see DESIGN.md 4/%s for the planned clauses" % p)})
     m = {
         "version": 1,
-        "setup_cmd": "python3 analysis/build.py Kd Kr",
+        "setup_cmd": "python3 analysis/build.py Kd Kr Kdn",
         "hooks": {"guard": "none",
                   "enable": "no hooks or instrumentation: every check is static and reads /repo's current working tree through the rustc_private fact driver (cargo +nightly check with RUSTC_WORKSPACE_WRAPPER)",
                   "baseline_off_cmd": "cd /repo && cargo test --workspace --no-fail-fast --offline",
@@ -107,9 +107,9 @@ def main():
                   "add_only": True},
         "engines": [{"name": "bnum-static", "path": "/verif/check",
                      "serves_properties": sorted(CLAIMS),
-                     "kind_free_text": "rustc_private MIR fact driver (/verif/driver) + Python rule library (/verif/analysis, /verif/rules): forwarding normal forms (F), guard-tree evaluation on representatives (G), panic-effect reachability (P+/P-), structure queries (S), witness crate (W)"}],
+                     "kind_free_text": "rustc_private MIR fact driver (/verif/driver) + Python rule library (/verif/analysis, /verif/rules): forwarding normal forms (F), guard-tree evaluation on representatives (G), panic-effect reachability (P+/P-, guard sensitive), information flow / control dependence (T), structure queries (S), witness crate (W)"}],
         "checks": checks,
-        "notes": "Family: static analysis only. /repo carries three unguarded `fix:` commits (rotate amounts, Integer floor division, nth_root overflow) recorded in known_findings.json. UNDECIDED obligations never fail a check.",
+        "notes": "Family: static analysis only. /repo carries five unguarded `fix:` commits (rotate amounts, Integer floor division, nth_root overflow, float casts in (0.5,1), zero-padded numerals in power-of-two radices) recorded in known_findings.json. UNDECIDED obligations never fail a check.",
         "not_applicable": na,
     }
     json.dump(m, open(os.path.join(VERIF, "MANIFEST.json"), "w"), indent=1)
